@@ -20,12 +20,17 @@ from harness.core import hx, unhx
 
 LEAN_MODULES = ['CpProps.C09']
 RULE = ('per modelled class (16): seeded objects from the library constructors (all capability/status flag subsets by '
-        'random masks plus empty/full/singletons, both protocol versions, all 41 character sets, auth-plugin data of '
-        '0..247 bytes, session ids over the 64-bit range incl. boundaries, packet-id arrays of 0..255 entries, X.224 '
-        'references over 16 bits, user data of 0..249 bytes, every subset of the RDP protocols and of both flag '
-        'enumerations); each composed, then parsed by model and implementation: as is, with a suffix, under 6 seeded '
+        'random masks plus empty/full/singletons, both protocol versions, all 41 character sets, the three kinds of MySQL '
+        'greeting - CLIENT_PLUGIN_AUTH with a second part of 13..247 bytes, CLIENT_SECURE_CONNECTION alone (pre-5.5.7) '
+        'with 13 bytes, neither -, session ids over the 64-bit range incl. boundaries, packet-id arrays of 0..255 '
+        'entries, X.224 references over 16 bits, user data of 0..249 bytes, every subset of the RDP protocols (the '
+        'zero-valued member included) and of both flag enumerations), plus MySQL greetings laid out from the '
+        'documentation with the length octet 21, 8, 0, 255, 1..7 and arbitrary and pre-5.5.7 ones with and without a '
+        'filler in it; each composed, then parsed by model and implementation: as is, with a suffix, under 6 seeded '
         'mutations, and at EVERY truncation when at most 80 bytes; plus the reference encoder/decoder comparison on '
-        'every object, every LDAP result code, and fixed probes at the points excluded from the theorems. '
+        'every object, constructible MySQL greetings without an encoding (compose() must refuse them), every LDAP result '
+        'code, and fixed probes: the repaired behaviours (zero-valued RDP protocol member, second part of the MySQL auth '
+        'plugin data, embedded NUL) are REQUIRED there, a reappearance is a violation. '
         'Non-trivial: bytes not all zero; distinct: (class, bytes).')
 ASSUMPTIONS = [
     'asn1crypto BER/DER (LDAP) is outside the model; LDAP is checked on the implementation only, against a reference '
@@ -98,6 +103,10 @@ def dec_mysql_v10(b):
         assert end + 1 == len(b)
     else:
         f['part2'], f['plugin_name'] = b'', b''
+        if f['caps'] >> 15 & 1:     # CLIENT_SECURE_CONNECTION alone: the length octet is the constant 00, MAX(13, -8) bytes
+            assert adl == 0
+            f['part2'] = b[p:p + 13]
+            p += 13
         assert p == len(b)
     return f
 
@@ -267,17 +276,44 @@ CODERS = {
 }
 
 GENERATORS = dict(gen_opp.ALL_GENERATORS)
+# constructible values WITHOUT an encoding (compose() must refuse them): reference comparison only, see `check_refused`
+GENERATORS['MySQLHandshakeV10:refused'] = gen_opp.mysql_handshake_v10_refused
 FRAMING = {'MySQLRecord', 'TPKT', 'OpenVpnPacketWrapperTcp', 'SslRequest'}
 
 
 def spec_conformant(name, f):
-    """inside the domain where the library's reading of HandshakeV10 and the documentation agree
-    (part 2 is MAX(13, len - 8) bytes; present without CLIENT_PLUGIN_AUTH when CLIENT_SECURE_CONNECTION is set)"""
+    """a value the documents give an encoding for.  HandshakeV10: auth-plugin-data-part-2 is MAX(13, len - 8) bytes with
+    an 8-bit `len` when CLIENT_PLUGIN_AUTH is set (13..247 bytes), the 13 bytes of MAX(13, 0 - 8) with
+    CLIENT_SECURE_CONNECTION alone, and absent otherwise.  For every conformant value the library must produce exactly the
+    reference encoding and read it back; for every other value compose() must refuse (see `check_object`)."""
     if name != 'MySQLHandshakeV10':
         return True
     if f['caps'] >> 19 & 1:
-        return len(f['part2']) >= 13
-    return not f['caps'] >> 15 & 1
+        return 13 <= len(f['part2']) <= 247
+    if f['caps'] >> 15 & 1:
+        return len(f['part2']) == 13
+    return not f['part2']
+
+
+def check_refused(obj, name, f):
+    """a constructible value without an encoding: compose() must raise InvalidValue; bytes that parse() does not read back
+    as they were written are the repaired defect `mysql-v10-part2` coming back"""
+    try:
+        composed = bytes(obj.compose())
+    except Exception as exc:  # pylint: disable=broad-except
+        line = core.err_line(exc)
+        if line == 'ERR InvalidValue':
+            return []
+        return [('mysql-v10-part2', '{} with {} bytes of part 2 and capabilities {:#x} has no encoding; compose() raised {} '
+                 'instead of InvalidValue'.format(name, len(f['part2']), f['caps'], line))]
+    try:
+        back = fields(type(obj).parse_exact_size(composed))
+    except Exception as exc:  # pylint: disable=broad-except
+        back = core.err_line(exc)
+    return [('mysql-v10-part2', '{} with {} bytes of part 2 and capabilities {:#x} has no encoding (the documents give '
+             'MAX(13, len - 8) bytes with CLIENT_PLUGIN_AUTH, 13 with CLIENT_SECURE_CONNECTION alone, none otherwise) but '
+             'compose() emitted {} which reads back as {}'.format(name, len(f['part2']), f['caps'], hx(composed),
+                                                                back if isinstance(back, str) else back['part2']))]
 
 
 def check_object(obj, parse_cls=None):
@@ -288,10 +324,13 @@ def check_object(obj, parse_cls=None):
     parse_cls = parse_cls or cls
     f = fields(obj)
     enc, dec = CODERS[name]
-    composed = bytes(obj.compose())
     if not spec_conformant(name, f):
-        # the library's own layout is still checked (by the correspondence); the documents say otherwise here
-        return bad
+        return check_refused(obj, name, f)
+    try:
+        composed = bytes(obj.compose())
+    except Exception as exc:  # pylint: disable=broad-except
+        return [('rejects-conformant:' + name, '{}.compose() raised {} on a value the specification encodes [{}]'.format(
+            name, core.err_line(exc), canon.generic(obj)[:200]))]
     ref = enc(f)
     cotp = name.startswith('COTP')
     if composed != ref:
@@ -441,8 +480,84 @@ def _t(fn):
         return exc
 
 
+def mysql_greeting(caps, adl, part2, plugin_name=None, version=b'5.1.73'):
+    """HandshakeV10 octets with an explicit length octet (the reference encoder derives it from part 2)"""
+    out = bytes([10]) + version + b'\x00' + struct.pack('<I', 9) + b'abcdefgh' + b'\x00'
+    out += struct.pack('<HBHH', caps & 0xffff, 8, 2, caps >> 16) + bytes([adl]) + bytes(10) + part2
+    return out + (plugin_name + b'\x00' if plugin_name is not None else b'')
+
+
+def mysql_part2_probe():
+    """the repaired reading of HandshakeV10 at fixed points, REQUIRED: [(finding key, message)]"""
+    from cryptoparser.tls import mysql
+    bad = []
+    scramble = b'ijklmnopqrst\x00'
+    secure, plugin = 1 << 15, 1 << 19
+
+    def parse(wire):
+        return _t(lambda: mysql.MySQLHandshakeV10.parse_exact_size(wire))
+
+    def expect(what, wire, part2, plugin_name, recomposed=None):
+        back = parse(wire)
+        if isinstance(back, Exception):
+            bad.append(('mysql-v10-part2', '{} is rejected: {} on {}'.format(what, core.err_line(back), hx(wire))))
+            return
+        got = (None if back.auth_plugin_data_2 is None else bytes(back.auth_plugin_data_2), back.auth_plugin_name)
+        if got != (part2, plugin_name):
+            bad.append(('mysql-v10-part2', '{}: parsed (part 2, plugin name) = {} expected {} on {}'.format(
+                what, got, (part2, plugin_name), hx(wire))))
+            return
+        again = _t(back.compose)
+        if isinstance(again, Exception) or bytes(again) != (wire if recomposed is None else recomposed):
+            bad.append(('mysql-v10-part2', '{}: recomposed as {} expected {}'.format(
+                what, core.err_line(again) if isinstance(again, Exception) else hx(again),
+                hx(wire if recomposed is None else recomposed))))
+            return
+        if parse(bytes(again)) != back:
+            bad.append(('mysql-v10-part2', '{}: the recomposed octets {} do not parse to the same object'.format(what, hx(again))))
+
+    def expect_error(what, wire, line):
+        back = parse(wire)
+        got = core.err_line(back) if isinstance(back, Exception) else 'an object'
+        if got != line and not got.startswith(line + ' '):
+            bad.append(('mysql-v10-part2', '{}: {} expected {} on {}'.format(what, got, line, hx(wire))))
+
+    # a MySQL 5.1 greeting: CLIENT_SECURE_CONNECTION without CLIENT_PLUGIN_AUTH, length octet 00, 13 bytes of part 2
+    expect('a conformant pre-5.5.7 HandshakeV10 (CLIENT_SECURE_CONNECTION, no CLIENT_PLUGIN_AUTH, 13 bytes of part 2)',
+           mysql_greeting(0xf7ff, 0, scramble), scramble, None)
+    # the length octet is a filler there; what follows the 13 bytes is not part of the message
+    expect('pre-5.5.7 HandshakeV10 with a non-zero filler in the length octet', mysql_greeting(0xf7ff, 77, scramble), scramble,
+           None, recomposed=mysql_greeting(0xf7ff, 0, scramble))
+    expect_error('pre-5.5.7 HandshakeV10 followed by one more byte', mysql_greeting(0xf7ff, 0, scramble + b'x'), 'ERR TooMuchData')
+    expect_error('pre-5.5.7 HandshakeV10 with 12 bytes of part 2', mysql_greeting(0xf7ff, 0, scramble[:12]), 'ERR NotEnoughData 1')
+    # with CLIENT_PLUGIN_AUTH: MAX(13, len - 8) bytes of part 2
+    canonical = mysql_greeting(plugin | secure, 21, scramble, b'x', b'8.0')
+    expect('HandshakeV10 with auth_plugin_data_len = 21', canonical, scramble, 'x')
+    for adl in (8, 1, 7, 20):
+        expect('HandshakeV10 with auth_plugin_data_len = {} (MAX(13, len - 8) = 13 bytes of part 2)'.format(adl),
+               mysql_greeting(plugin | secure, adl, scramble, b'x', b'8.0'), scramble, 'x', recomposed=canonical)
+    expect('HandshakeV10 with auth_plugin_data_len = 22', mysql_greeting(plugin, 22, b'A' + scramble, b'x'), b'A' + scramble, 'x')
+    expect('HandshakeV10 with auth_plugin_data_len = 255', mysql_greeting(plugin | secure, 255, bytes(range(1, 248)), b'x'),
+           bytes(range(1, 248)), 'x')
+    expect_error('HandshakeV10 with CLIENT_PLUGIN_AUTH and auth_plugin_data_len = 0', mysql_greeting(plugin, 0, scramble, b'x'),
+                 'ERR InvalidValue')
+    # neither capability: nothing follows the reserved octets
+    expect('HandshakeV10 without CLIENT_SECURE_CONNECTION and CLIENT_PLUGIN_AUTH', mysql_greeting(0x0800, 0, b''), None, None)
+    expect_error('HandshakeV10 without either capability followed by 13 bytes', mysql_greeting(0x0800, 0, scramble), 'ERR TooMuchData')
+    # compose() writes only what parse() reads back
+    rng = random.Random(9)
+    for _ in range(60):
+        obj = gen_opp.mysql_handshake_v10_refused(rng)
+        f = fields(obj)
+        if spec_conformant('MySQLHandshakeV10', f):
+            bad.append(('reference-inconsistent:MySQLHandshakeV10', 'gen_opp.mysql_handshake_v10_refused built a conformant value'))
+        bad.extend(check_refused(obj, 'MySQLHandshakeV10', f))
+    return bad[:1]
+
+
 class ProbeOracle(object):
-    """case {'kind':'probe','name':...}: fixed points outside the domain of the theorems (the constructors accept them)"""
+    """case {'kind':'probe','name':...}: fixed points where the library used to deviate (the constructors accept them);
+    the repaired behaviour is required, a reappearance of the old one is a violation under the old finding key"""
 
     @staticmethod
     def lines(case):
@@ -458,16 +573,37 @@ class ProbeOracle(object):
         name = case['name']
         bad = []
         if name == 'rdp-zero-flag':
+            # RDPProtocol.RDP is 0: it has no bit on the wire.  Required (repaired): the constructor drops it, so that
+            # {RDP} and set() are ONE value, which composes to the zero field and is what the zero field parses to
             for cls, flag_cls in ((rdp.RDPNegotiationRequest, rdp.RDPNegotiationRequestFlags),
                                   (rdp.RDPNegotiationResponse, rdp.RDPNegotiationResponseFlags)):
-                for protos in ({rdp.RDPProtocol.RDP}, {rdp.RDPProtocol.RDP, rdp.RDPProtocol.SSL}):
+                for protos in ({rdp.RDPProtocol.RDP}, {rdp.RDPProtocol.RDP, rdp.RDPProtocol.SSL},
+                               set(rdp.RDPProtocol), [rdp.RDPProtocol.HYBRID, rdp.RDPProtocol.RDP, rdp.RDPProtocol.RDP]):
+                    what = '{}(protocol={})'.format(cls.__name__, sorted(p.name for p in protos))
                     obj = cls(set(), protos)
-                    back = _t(lambda: cls.parse_exact_size(obj.compose()))  # pylint: disable=cell-var-from-loop
-                    if isinstance(back, Exception) or set(back.protocol) != protos:
-                        bad.append(('rdp-zero-flag', '{}(protocol={}) composes to {} and parses back with protocol={}'.format(
-                            cls.__name__, sorted(p.name for p in protos), hx(obj.compose()),
-                            back if isinstance(back, Exception) else sorted(p.name for p in back.protocol))))
+                    same = cls(set(), {p for p in protos if p.value})
+                    if obj != same:
+                        bad.append(('rdp-zero-flag', '{} and the same without RDPProtocol.RDP are different values although '
+                                    'they have one encoding: {!r} / {!r}'.format(what, obj, same)))
                         break
+                    composed = _t(obj.compose)
+                    want = ref_rdp_neg({'type': 1 if cls is rdp.RDPNegotiationRequest else 2, 'flags': 0,
+                                        'protocols': word(protos)})
+                    if isinstance(composed, Exception) or bytes(composed) != want:
+                        bad.append(('rdp-zero-flag', '{}.compose() gives {} expected {}'.format(
+                            what, core.err_line(composed) if isinstance(composed, Exception) else hx(composed), hx(want))))
+                        break
+                    back = _t(lambda: cls.parse_exact_size(want))  # pylint: disable=cell-var-from-loop
+                    if isinstance(back, Exception) or back != obj or type(back) is not cls:
+                        bad.append(('rdp-zero-flag', '{} composes to {} and parses back as {}'.format(
+                            what, hx(want), core.err_line(back) if isinstance(back, Exception) else repr(back))))
+                        break
+            # what the parser returns is unchanged: the zero field is the empty set (RDP is never a member of a parsed set)
+            for cls, t in ((rdp.RDPNegotiationRequest, 1), (rdp.RDPNegotiationResponse, 2)):
+                back = _t(lambda: cls.parse_exact_size(ref_rdp_neg({'type': t, 'flags': 0, 'protocols': 0})))  # pylint: disable=cell-var-from-loop
+                if isinstance(back, Exception) or list(back.protocol) != []:
+                    bad.append(('rdp-zero-flag', '{}: a zero protocol field parses as {}'.format(
+                        cls.__name__, core.err_line(back) if isinstance(back, Exception) else repr(back.protocol))))
         elif name == 'strnul-embedded-nul':
             # a NUL inside a null-terminated string cannot be represented: the composer must refuse it (InvalidValue),
             # in the server version and in the plugin name alike
@@ -488,24 +624,7 @@ class ProbeOracle(object):
                         kwargs, hx(composed), core.err_line(back) if isinstance(back, Exception)
                         else (back.server_version, back.auth_plugin_name))))
         elif name == 'mysql-v10-part2':
-            # a MySQL 5.1 greeting: CLIENT_SECURE_CONNECTION without CLIENT_PLUGIN_AUTH, 13 bytes of part 2 follow
-            greeting = ref_mysql_v10({'version': 10, 'server_version': b'5.1.73', 'thread_id': 9, 'part1': b'abcdefgh',
-                                      'caps': 0xf7ff, 'charset': 8, 'status': 2, 'part2': b'', 'plugin_name': b''}) + \
-                b'ijklmnopqrst\x00'
-            back = _t(lambda: mysql.MySQLHandshakeV10.parse_exact_size(greeting))
-            if isinstance(back, Exception):
-                bad.append(('mysql-v10-part2', 'a conformant pre-5.5.7 HandshakeV10 (CLIENT_SECURE_CONNECTION, no CLIENT_PLUGIN_AUTH, '
-                            '13 bytes of auth-plugin-data-part-2) is rejected: {} on {}'.format(core.err_line(back), hx(greeting))))
-            # with CLIENT_PLUGIN_AUTH and auth_plugin_data_len = 8: the documents say MAX(13, 0) = 13 bytes of part 2
-            f = {'version': 10, 'server_version': b'8.0', 'thread_id': 9, 'part1': b'abcdefgh', 'caps': 0x80000 | 0x8000,
-                 'charset': 8, 'status': 2, 'part2': b'ijklmnopqrst\x00', 'plugin_name': b'x'}
-            wire = bytearray(ref_mysql_v10(f))
-            wire[len(f['server_version']) + 2 + 4 + 9 + 7] = 8      # auth_plugin_data_len
-            back = _t(lambda: mysql.MySQLHandshakeV10.parse_exact_size(bytes(wire)))
-            if isinstance(back, Exception) or bytes(back.auth_plugin_data_2 or b'') != f['part2'] or back.auth_plugin_name != 'x':
-                bad.append(('mysql-v10-part2', 'HandshakeV10 with auth_plugin_data_len = 8: the documents give MAX(13, len - 8) = 13 '
-                            'bytes of part 2; parsed as {}'.format(core.err_line(back) if isinstance(back, Exception) else
-                                                                   (bytes(back.auth_plugin_data_2 or b''), back.auth_plugin_name))))
+            bad.extend(mysql_part2_probe())
         return bad[:1]
 
 
@@ -550,6 +669,19 @@ def gen_cases(rng, tier):
                 # correspondence with the model
                 cls_cases.append({'kind': 'cls', 'cls': name, 'data': hx(d), 'want': [],
                                   'framing': name in FRAMING})
+    for _ in range(per_class):
+        cases.append({'kind': 'obj', 'gen': 'MySQLHandshakeV10:refused', 'seed': rng.getrandbits(48)})
+    # greetings laid out from the documentation (gen_opp.RAW_INPUTS): no compose() of the library produces the length
+    # octets 8, 0, 1..7 or a filler in a pre-5.5.7 greeting; both sides parse them, as they are, mutated and truncated
+    for name, gen in gen_opp.RAW_INPUTS:
+        for _ in range(2 * per_class):
+            b = bytes(gen(rng))
+            datas = [b, b + bytes(rng.getrandbits(8) for _ in range(rng.randrange(1, 4)))]
+            datas += clsrun.mutations(rng, b, n_mut)
+            if len(b) <= 80:
+                datas += clsrun.all_truncations(b)
+            for d in datas:
+                cls_cases.append({'kind': 'cls', 'cls': name, 'data': hx(d), 'want': [], 'framing': name in FRAMING})
     from cryptoparser.tls.ldap import LDAPResultCode
     cases.append({'kind': 'ldap', 'rc': None})
     for rc in LDAPResultCode:
@@ -577,10 +709,17 @@ def run(run, driver_ok=True, deep=False):  # pylint: disable=redefined-outer-nam
                 run.finding(key, message, case)
     clsrun.run_cases(run, cls_cases, driver_ok)
     inconsistent_header_probe(run)
-    skipped = sum(1 for c in cases if c['kind'] == 'obj' and
-                  not spec_conformant(c['gen'], fields(ObjOracle.build(c))) and c['gen'] == 'MySQLHandshakeV10')
-    run.notes.append('HandshakeV10 objects outside the part-2 agreement domain (reference comparison skipped, '
-                     'correspondence still run): {}'.format(skipped))
+    refused = sum(1 for c in cases if c['kind'] == 'obj' and c['gen'] == 'MySQLHandshakeV10:refused')
+    kinds = {'plugin': 0, 'secure': 0, 'neither': 0}
+    for c in cases:
+        if c['kind'] == 'obj' and c['gen'] == 'MySQLHandshakeV10':
+            caps = fields(ObjOracle.build(c))['caps']
+            kinds['plugin' if caps >> 19 & 1 else 'secure' if caps >> 15 & 1 else 'neither'] += 1
+    run.notes.append('HandshakeV10 objects: {} with CLIENT_PLUGIN_AUTH, {} with CLIENT_SECURE_CONNECTION alone (pre-5.5.7), {} with '
+                     'neither; {} constructible values without an encoding (compose() must raise InvalidValue); {} greetings laid out '
+                     'from the documentation (length octet 21 / 8 / 0 / 255 / 1..7 / arbitrary, pre-5.5.7 with and without a filler)'
+                     .format(kinds['plugin'], kinds['secure'], kinds['neither'], refused,
+                             len(gen_opp.RAW_INPUTS) * 2 * (40 if tier == 'quick' else 400)))
     run.notes.append('LDAP: implementation-side only (asn1crypto); Lean carries the two encodings as specification constants')
 
 
